@@ -8,7 +8,11 @@ implementation (the zero-padded fixed-array representation of flows.go transcrib
 every pair.  The Go driver builds exactly those values with the real NewEndpoint/NewFlow/FlowFromEndpoints (from slices
 of dirty arrays, by several routes), records ==, map-key collision, LessThan, Reverse, Endpoints, FastHash equality,
 adds seeded random values beyond the bound, and for decoded real packets records every LinkFlow/NetworkFlow/
-TransportFlow next to the layer's own address fields plus the flow of the packet with the addresses swapped.  TLC
+TransportFlow next to the layer's own address fields plus the flow of the packet with the addresses swapped; the
+packets include synthetic ones and corpus packets rewritten so that the address fields run over special values
+(::, ::1, IPv4-mapped/-compatible/64:ff9b IPv6 addresses in source, destination or both, multicast, link-local,
+leading/trailing zero bytes, 0.0.0.0, broadcast, loopback, zero/broadcast MACs, ports 0 and 65535), and the flows of
+different conversations are compared pairwise as map keys.  TLC
 (FlowTrace.tla) judges every recorded line; a binding self-test corrupts single fields of good lines and demands
 that each corruption is rejected for the expected reason."""
 import copy, json, os, time, shutil
@@ -110,7 +114,7 @@ def run(ctx):
     open(sp, "w").write("\n".join(scen) + "\n")
     tp = os.path.join(wd, "trace.ndjson")
     p = vlib.run([binp, "-scenarios", sp, "-trace", tp, "-seed", str(ctx.seed), "-rand", "1500" if quick else "20000",
-                  "-corpus", "-mut", "2" if quick else "30"], timeout=3000, ok_codes=(0, 3))
+                  "-corpus", "-mut", "2" if quick else "30", "-addr", "2" if quick else "12"], timeout=3000, ok_codes=(0, 3))
     st = json.loads(p.stdout.strip().splitlines()[-1])
     log("[C17] driver: %d events, %d scenarios, %d packets, layer types %s" % (st["events"], st["scenarios"], st.get("packets", 0),
                                                                                json.dumps(st.get("layer_types", {}), sort_keys=True)))
@@ -162,7 +166,7 @@ def run(ctx):
            "packets_decoded": st.get("packets", 0), "random_pairs_beyond_bound": st.get("random", 0),
            "rejected_lines": nbad, "binding_selftest": self, "exhaustive": True,
            "evaluations": st["scenarios"], "distinct_nontrivial": st["scenarios"],
-           "rule": "every endpoint pair / flow pair / oversize construction of FlowGen.tla (distinct by construction), seeded random pairs of related values (prefixes, zero extensions, one-bit changes, re-split concatenations), and one observation per distinct (layer type, flow, address fields) of the decoded corpus, synthetic and mutated packets",
+           "rule": "every endpoint pair / flow pair / oversize construction of FlowGen.tla (distinct by construction), seeded random pairs of related values (prefixes, zero extensions, one-bit changes, re-split concatenations), one observation per distinct (layer type, flow, address fields) of the decoded corpus, synthetic, mutated and address-rewritten packets (special address values), and every pair of the conversations of the special-address packets",
            "samples": samples}
     vlib.write_evidence(PID, ctx.tier, ctx.seed, "model_checking", cov, time.time() - t0, len(V.violations),
                         ["64-bit FNV is not computed in TLC: the driver reports only whether two hashes are equal and the spec judges the relation (equal values and mutually reversed flows must hash alike; collisions of unrelated values are not judged)",
